@@ -1,6 +1,7 @@
 package sym
 
 import (
+	"html"
 	"fmt"
 	"path"
 	"regexp/syntax"
@@ -137,6 +138,14 @@ func registerStringModels(e *Engine) {
 			return StrC(strings.ToUpper(t.S))
 		}
 		return UF("toupper", t)
+	}
+	// html.EscapeString: the argument itself iff it holds none of & < > " '
+	m["html.EscapeString"] = func(x *Exec, fr *frame, a []Value) Value {
+		t := x.term(a[0])
+		if t.IsConst() {
+			return StrC(html.EscapeString(t.S))
+		}
+		return UF("htmlesc", t)
 	}
 	m["strings.TrimSpace"] = func(x *Exec, fr *frame, a []Value) Value {
 		t := x.term(a[0])
